@@ -12,6 +12,7 @@ import (
 	"os"
 	"path/filepath"
 	"sort"
+	"strings"
 	"time"
 )
 
@@ -119,6 +120,22 @@ func fatal(format string, args ...interface{}) {
 	os.Exit(2)
 }
 
+// crash log: the operations of the history that is being executed, rewritten before every library call, so that a
+// fatal error of the library (stack exhaustion on a cyclic tree is not recoverable) still leaves a replay behind
+var crashLogPath string
+var crashHistory []string
+
+func noteOp(f []string) {
+	if crashLogPath == "" {
+		return
+	}
+	if len(f) > 0 && f[0] == "reset" {
+		crashHistory = crashHistory[:0]
+	}
+	crashHistory = append(crashHistory, strings.Join(f, " "))
+	_ = os.WriteFile(crashLogPath, []byte(strings.Join(crashHistory, "\n")+"\n"), 0o644)
+}
+
 type streamFn func(o *Out, r *Rng, tier string)
 
 var streams = map[string]streamFn{}
@@ -149,9 +166,12 @@ func main() {
 				fatal("unknown stream %q", name)
 			}
 			start := time.Now()
+			crashLogPath = filepath.Join(*out, name+".current")
+			crashHistory = nil
 			o := NewOut(*out, name, *seed, *tier)
 			fn(o, NewRng(*seed).Fork(hashName(name)), *tier)
 			o.Close(*out, start)
+			os.Remove(crashLogPath)
 		}
 	case "one":
 		// harness one <request line>: print the implementation's observation for a single request (replay)
